@@ -6,6 +6,7 @@ from pv.programs import ProgError
 
 ID = 'C03'
 TITLE = 'user-code failure => EXCEPTED, never half-transitioned'
+ANCHORS = ['plumpy.base.state_machine:StateMachine.transition_to', 'plumpy.processes:Process.transition_failed', 'plumpy.process_states:Running.execute', 'plumpy.events:ProcessCallback.run', 'plumpy.processes:Process.callback_excepted', 'plumpy.event_helper:EventHelper.fire_event']
 LEVEL = 'fault_enumeration'
 TECHNIQUE = ('fault injection with runtime monitoring: one unique exception raised at every (hook or user function) x occurrence x before/after-super '
              'position found by a discovery run of each (program, scenario); outcome, loop exception handler and stepping task observed')
